@@ -31,9 +31,15 @@ func (m Mode) String() string {
 	return [...]string{"none", "shared", "exclusive", "mixed"}[m]
 }
 
+// meet: what is guaranteed when control can arrive in either mode. Shared and
+// exclusive together guarantee (at least) the shared lock; a path without the
+// lock guarantees nothing, which stays visible as Mixed.
 func meet(a, b Mode) Mode {
 	if a == b {
 		return a
+	}
+	if (a == Shared && b == Excl) || (a == Excl && b == Shared) {
+		return Shared
 	}
 	return Mixed
 }
